@@ -163,6 +163,7 @@ def reset():
     TABLE = AtomTable()
     UNSURE.clear()
     _UNMODELLED.clear()
+    _DEF_PAIR.clear()
     return TABLE
 
 
@@ -373,6 +374,23 @@ def _top_atoms(r):
     return r.num.atoms() | r.den.atoms()
 
 
+_DEF_PAIR = {}      # (definition atom id, definition atom id) -> verdict on the two definitions (ids are never reused within a table)
+
+
+def _affine_in(r, k):
+    """the atom k occurs in r only as a factor of degree one of numerator terms (not in the denominator, not inside an exponent)"""
+    if k in r.den.atoms():
+        return False
+    for (mono, ex), c in r.num.t.items():
+        for ak, e in mono:
+            if ak == k and e != 1:
+                return False
+        for emono, ec in ex:
+            if any(ak == k for ak, e in emono):
+                return False
+    return True
+
+
 def _pair_verdict(A1, A2, budget, why):
     """compare two atoms of the same function symbol by their arguments"""
     if A1.kind != 'fn' or A2.kind != 'fn' or A1.name != A2.name or len(A1.args) != len(A2.args):
@@ -443,6 +461,17 @@ def _special_point(ca):
         if not mono_[1] and all((TABLE.atoms[k_].kind == 'sym' and TABLE.atoms[k_].name == 'pi') or (k_ == syms[0] and x_ == 1) for k_, x_ in mono_[0]) \
                 and any(k_ == syms[0] for k_, x_ in mono_[0]):
             return syms[0], Fraction(0), at_special
+    if len(syms) == 2 and target == 0 and e.den.is_const() and len(e.atoms(deep=False)) == 2 and ca.name in ('eq', 'ne'):
+        # s1 == s2 (up to constant factors): the special "value" of s1 is the other input
+        cf = {}
+        for (mono, ex), c in e.num.t.items():
+            if ex or len(mono) != 1 or mono[0][1] != 1 or mono[0][0] not in syms or not c.is_real():
+                return None
+            cf[mono[0][0]] = c.re
+        if len(cf) == 2 and all(cf.values()):
+            s1, s2 = sorted(syms)
+            return s1, Rat.atom(TABLE.atoms[s2]) * C(-cf[s2] / cf[s1]), at_special
+        return None
     if len(syms) != 1 or not e.den.is_const() or len(e.atoms(deep=False)) != 1:
         return None
     sid = syms[0]
@@ -488,6 +517,14 @@ def decide_equal(a, b, budget=None, _why=None):
         only_a = sorted(ta - tb)
         only_b = sorted(tb - ta)
         if only_a and len(only_a) == len(only_b) and len(only_a) <= 4:
+            # every structurally matching pairing is looked at: `equal` as soon as one pairing has all its pairs equal; `different` only
+            # when EVERY matching pairing has a definitely different pair and the exchanged generators are independent ones (function
+            # atoms, free symbols).  Definition atoms are NAMES of polynomials, not generators: two sums D1 + D2 + D3 and D4 + D5 + D6 can be
+            # equal with no Di equal to any Dj - those are left to the unfolding of step 3
+            matched = 0
+            n_diff = 0
+            n_unknown = 0
+            has_def = False
             for perm in itertools.permutations(only_b):
                 ok = True
                 for x, y in zip(only_a, perm):
@@ -501,12 +538,27 @@ def decide_equal(a, b, budget=None, _why=None):
                 b2 = _subst_top(b, m)
                 if not a.equals(b2):
                     continue
+                matched += 1
                 # the forms are R(S_a) and R(S_b): decide the exchanged generators
                 verdicts = []
                 for x, y in zip(only_a, perm):
                     ax, ay = TABLE.atoms[x], TABLE.atoms[y]
-                    if ax.kind == 'fn':
+                    if ax.kind == 'fn' and ax.name != 'def':
                         verdicts.append(_pair_verdict(ax, ay, budget, _why))
+                    elif ax.kind == 'fn':
+                        # a definition atom names a polynomial.  ONE exchanged definition in which the form is affine (c * D + rest, D
+                        # neither squared nor in a denominator or exponent): R(Da) - R(Db) = c (Da - Db), so the verdict on the two
+                        # definitions is the verdict on the forms.  Several exchanged definitions can cancel among themselves
+                        # (D1 + D2 + D3 against D4 + D5 + D6): nothing is concluded here, step 3 unfolds them
+                        if len(only_a) == 1 and _affine_in(a, x) and ax.args and ay.args and isinstance(ax.args[0], Rat) and isinstance(ay.args[0], Rat):
+                            verdicts.append(decide_equal(ax.args[0], ay.args[0], budget, _why))
+                        else:
+                            has_def = True
+                            ck_ = (min(x, y), max(x, y))
+                            if ck_ not in _DEF_PAIR:
+                                ok_ = ax.args and ay.args and isinstance(ax.args[0], Rat) and isinstance(ay.args[0], Rat) and size(ax.args[0]) + size(ay.args[0]) <= budget
+                                _DEF_PAIR[ck_] = decide_equal(ax.args[0], ay.args[0], budget) if ok_ else 'unknown'
+                            verdicts.append('equal' if _DEF_PAIR[ck_] == 'equal' else 'unknown')
                     else:
                         verdicts.append('different')     # two distinct free symbols / unknowns
                         if ax.kind == 'unk' or ay.kind == 'unk':
@@ -514,6 +566,13 @@ def decide_equal(a, b, budget=None, _why=None):
                 if all(v == 'equal' for v in verdicts):
                     return 'equal'
                 if any(v == 'different' for v in verdicts):
+                    n_diff += 1
+                else:
+                    n_unknown += 1
+                if matched >= 6:
+                    break
+            if matched and not has_def:
+                if n_diff == matched:
                     if _why is not None and not _why:
                         _why.append((a, b))
                     return 'different'
@@ -639,6 +698,27 @@ def decide_equal(a, b, budget=None, _why=None):
                             pp_ = _special_point(xa_) if xa_ is not None else None
                             parts_.append(pp_)
                         want_at = (ca_.name == 'or')        # or: each disjunct true AT its special value; and: each conjunct true AWAY from it
+                        if all(pp_ is not None and pp_[2] != want_at for pp_ in parts_):
+                            # the dual: a conjunction of "is AT its special value" tests (a == b and b == c) selects ONE point, where all hold
+                            # at once (a disjunction of "is away" tests is its complement): the generic arm must agree everywhere, the
+                            # special arm at that simultaneous point
+                            generic_arm = at_.args[2] if ca_.name == 'and' else at_.args[1]
+                            special_arm = at_.args[1] if ca_.name == 'and' else at_.args[2]
+                            rg_ = decide_equal(subst(a, {k: generic_arm}), subst(b, {k: generic_arm}), budget)
+                            if rg_ == 'different':
+                                return 'different'
+                            if rg_ == 'equal':
+                                pa_, pb_ = subst(a, {k: special_arm}), subst(b, {k: special_arm})
+                                try:
+                                    for sid_, val_, _t in parts_:
+                                        vv_ = val_ if isinstance(val_, Rat) else C(val_)
+                                        pa_, pb_ = subst(pa_, {sid_: vv_}), subst(pb_, {sid_: vv_})
+                                except ZeroDivisionError:
+                                    return 'unknown'
+                                rs_ = decide_equal(pa_, pb_, budget)
+                                if rs_ in ('equal', 'different'):
+                                    return rs_
+                            return 'unknown'
                         if all(pp_ is not None and pp_[2] == want_at for pp_ in parts_):
                             generic_arm = at_.args[2] if ca_.name == 'or' else at_.args[1]
                             special_arm = at_.args[1] if ca_.name == 'or' else at_.args[2]
@@ -649,8 +729,9 @@ def decide_equal(a, b, budget=None, _why=None):
                                 res_ = []
                                 for sid_, val_, _t in parts_:
                                     try:
-                                        pa_ = subst(subst(a, {k: special_arm}), {sid_: C(val_)})
-                                        pb_ = subst(subst(b, {k: special_arm}), {sid_: C(val_)})
+                                        vv_ = val_ if isinstance(val_, Rat) else C(val_)
+                                        pa_ = subst(subst(a, {k: special_arm}), {sid_: vv_})
+                                        pb_ = subst(subst(b, {k: special_arm}), {sid_: vv_})
                                     except ZeroDivisionError:
                                         res_.append('unknown')
                                         continue
@@ -672,8 +753,9 @@ def decide_equal(a, b, budget=None, _why=None):
                             return 'different'
                         if rg_ == 'equal':
                             try:
-                                pa_ = subst(subst(a, {k: special_arm}), {sid_: C(val_)})
-                                pb_ = subst(subst(b, {k: special_arm}), {sid_: C(val_)})
+                                vv_ = val_ if isinstance(val_, Rat) else C(val_)
+                                pa_ = subst(subst(a, {k: special_arm}), {sid_: vv_})
+                                pb_ = subst(subst(b, {k: special_arm}), {sid_: vv_})
                             except ZeroDivisionError:
                                 return 'unknown'
                             rs_ = decide_equal(pa_, pb_, budget)
